@@ -5,10 +5,12 @@ cd /verif
 if ! git -C /repo diff --quiet; then echo "/repo has uncommitted changes; refusing"; exit 2; fi
 git -C /repo apply /verif/seeded/$NAME/patch.diff || { echo "$NAME: cannot apply to /repo"; exit 2; }
 RES=""
+EVBAK=$(mktemp -d); cp -a evidence/. $EVBAK/
 for P in "$@"; do
   OUT=$(./check $P ${TIER:-quick} 2>&1); RC=$?
   SIG=$(echo "$OUT" | grep -m1 "violation clause" | sed 's/.*sig=\([^ ]*\).*/\1/')
   RES="$RES $P=$RC($SIG)"
 done
 git -C /repo checkout -- .
+cp -a $EVBAK/. evidence/; rm -rf $EVBAK; rm -f replays/*.json
 echo "$NAME:$RES"
